@@ -29,12 +29,17 @@ pub fn check(p: &Pos, rep: &mut Report, rng: &mut StdRng) {
         let mut after = Vec::new();
         for m in bb.generate_pseudo_legal_moves() {
             bb.make(m);
-            after.push((m.to_uci_string(), bb.is_valid(), bb.is_current_in_check()));
+            let (valid, next_check) = (bb.is_valid(), bb.is_current_in_check());
             bb.unmake(m);
+            // the packaged form of the same question
+            let packaged = bb.is_move_legal(m);
+            after.push((m.to_uci_string(), valid, next_check, packaged));
         }
-        Ok::<_, String>((cur, w, b, empty, term_eval, after))
+        let pseudo = bb.generate_pseudo_legal_moves();
+        let any_legal = bb.is_any_move_legal(&pseudo);
+        Ok::<_, String>((cur, w, b, empty, term_eval, after, any_legal))
     });
-    let (cur, w, b, empty, term_eval, after) = match r {
+    let (cur, w, b, empty, term_eval, after, any_legal) = match r {
         Err(pm) => { rep.violation(&format!("check-{}", panic_sig(&pm)), format!("check detection panicked in {}: {}", fen, pm), replay); return; }
         Ok(Err(e)) => { rep.violation("load-failed", e, replay); return; }
         Ok(Ok(x)) => x,
@@ -52,6 +57,9 @@ pub fn check(p: &Pos, rep: &mut Report, rng: &mut StdRng) {
     let ref_empty = p.legal_moves().is_empty();
     if empty != ref_empty {
         rep.violation("no-legal-moves-mismatch", format!("generate_legal_moves().is_empty()={} but rules say {} in {}", empty, ref_empty, fen), replay.clone());
+    }
+    if any_legal == ref_empty {
+        rep.violation("is_any_move_legal-mismatch", format!("is_any_move_legal(all pseudo-legal moves)={} but the rules say a legal move exists: {} in {}", any_legal, !ref_empty, fen), replay.clone());
     }
     if ref_empty {
         let mate = ref_cur;
@@ -77,13 +85,16 @@ pub fn check(p: &Pos, rep: &mut Report, rng: &mut StdRng) {
         rep.distinct_hash(p.key().h64());
     }
     // validity after every pseudo-legal move
-    for (u, valid, next_in_check) in after {
+    for (u, valid, next_in_check, packaged) in after {
         rep.eval();
         let m = match Mv::from_uci(&u) { Some(m) if ref_pseudo.contains(&m) => m, _ => { rep.inconclusive("pseudo-legal move unknown to the reference (C01 matter)"); continue; } };
         let n = p.make(m);
         let ref_valid = !n.in_check(white);
         if valid != ref_valid {
             rep.violation(&format!("is_valid:{}", if ref_valid { "rejects-legal" } else { "accepts-illegal" }), format!("after {} in {}: is_valid()={} rules {}", u, fen, valid, ref_valid), json!({"kind":"c05","fen":fen,"move":u}));
+        }
+        if packaged != ref_valid {
+            rep.violation(&format!("is_move_legal:{}:{}", if ref_valid { "rejects-legal" } else { "accepts-illegal" }, crate::c01::move_kind(p, &u)), format!("is_move_legal({}) in {} = {} rules {}", u, fen, packaged, ref_valid), json!({"kind":"c05","fen":fen,"move":u}));
         }
         if !ref_valid { rep.count("positions_after_illegal_pseudo_legal_move"); }
         let ref_next = n.in_check(n.wtm);
